@@ -93,6 +93,9 @@ TableQStep ==
                 <<"UniformMargins", UniformMarginsQ>> >>)
     /\ ln' = ln + 1 /\ UNCHANGED <<tid, fin, cvars>>
 CondRowOK(r) == /\ \A i \in 1..(Len(r.vals) - 1) : r.vals[i] <= r.vals[i + 1] + 1
+                \* ... also through the point x = 0 itself
+                /\ \A i \in 1..(Len(r.vz) - 1) : r.vz[i] <= r.vz[i + 1] + 1
+                /\ \A i \in 1..Len(r.vz) : r.vz[i] >= -1 /\ r.vz[i] <= E.one + 1
                 /\ \A i \in 1..Len(r.vals) : r.vals[i] >= -1 /\ r.vals[i] <= E.one + 1
                 \* the limits at -infinity and +infinity are 0 and 1
                 /\ r.lim[1] = 0 /\ r.lim[2] = 10000
@@ -105,6 +108,20 @@ CondQStep ==
     /\ Judge(<< <<"ConditionalDistribution", \A i \in 1..Len(E.rows) : CondRowOK(E.rows[i])>>,
                 <<"InverseConditionalDistribution", \A i \in 1..Len(E.rows) : CondRowInv(E.rows[i])>> >>)
     /\ ln' = ln + 1 /\ UNCHANGED <<tid, fin, cvars>>
+\* the stated mixed derivative: row = <<stated, sgn(prod u) * difference quotient, difference quotient * prod u>> (1e-6 of the
+\* larger; accepted within 2e-3: the difference quotient is the reference).  The property (and the docstring) say "mixed partial derivative times the product of the arguments"; the code
+\* returns the derivative with the sign of the product (known finding C11-mixed-derivative-convention).  Anything else is
+\* reported under the trace's own signature.
+AbsI2(x) == IF x < 0 THEN -x ELSE x
+Literal(rows) == \A i \in 1..Len(rows) : AbsI2(rows[i][1] - rows[i][3]) <= 2000
+AsBuilt(rows) == \A i \in 1..Len(rows) : AbsI2(rows[i][1] - rows[i][2]) <= 2000
+DerivStep ==
+    /\ More /\ E.e = "Deriv"
+    /\ IF Literal(E.rows) THEN bad' = bad
+       ELSE /\ PrintT(<<"VIOL", Id, ln, "MixedDerivativeTimesArguments",
+                         IF AsBuilt(E.rows) THEN "convention:signed-derivative" ELSE H.kind>>)
+            /\ bad' = bad + 1
+    /\ ln' = ln + 1 /\ UNCHANGED <<tid, fin, cvars>>
 RaiseStep ==
     /\ More /\ E.e = "Raise"
     /\ PrintT(<<"REJECT", Id, ln, "Raise", H.kind>>)
@@ -113,6 +130,6 @@ Finish ==
     /\ ~fin /\ ln = Len(T) + 1
     /\ IF bad = 0 THEN PrintT(<<"ACCEPT", Id>>) ELSE TRUE
     /\ fin' = TRUE /\ UNCHANGED <<tid, ln, bad, cvars>>
-TraceNext == TableStep \/ OpsStep \/ Cond1Step \/ TableQStep \/ CondQStep \/ RaiseStep \/ Finish
+TraceNext == TableStep \/ OpsStep \/ Cond1Step \/ TableQStep \/ CondQStep \/ DerivStep \/ RaiseStep \/ Finish
 TraceSpec == TraceInit /\ [][TraceNext]_tvars
 =============================================================================
